@@ -548,7 +548,7 @@ class Ctx(object):
         r = self.rnd
         c = r.random()
         if c < 0.3:
-            return r.choice((2, -1, 3))
+            return r.choice((2, -1, 3, 1, 0, 1.0))     # 1 and 0 too: "nothing to do" fast paths
         if c < 0.8:
             return round(r.uniform(-2, 2), 3) or 0.5
         return {"re": round(r.uniform(-1, 1), 3), "im": round(r.uniform(-1, 1), 3)}
